@@ -18,6 +18,9 @@ Section CursorProofs.
 
   Definition no_stop (l : list A) : Prop := forallb (fun o => negb (stop o)) l = true.
 
+  Lemma next_step_eq step (w : sw (A := A)) : next_step step w = sw_step w 1.
+  Proof. unfold next_step. destruct (yields step); reflexivity. Qed.
+
   Lemma unlimited_app pre post :
     no_stop pre -> unlimited (pre ++ post) = filter test pre ++ unlimited post.
   Proof.
@@ -65,7 +68,7 @@ Section CursorProofs.
     - left. cbn [Cursor.iterate]. split; [exact Hhit|]. cbv [Cursor.unlimited]. cbn. now rewrite app_nil_r.
     - cbn [Cursor.iterate].
       assert (E : (count + 1 <=? offset) = false) by (apply N.leb_gt; lia).
-      rewrite E.
+      rewrite E. rewrite next_step_eq.
       destruct (stop o) eqn:Hs.
       + left. cbn [sw_step sw_hit sw_filled]. split; [exact Hhit|].
         cbv [Cursor.unlimited]. cbn [Cursor.until_stop]. rewrite Hs. cbn. now rewrite app_nil_r.
